@@ -8,6 +8,8 @@ CONSTANTS
   ConstVal = 5
   MinVars = 4
   MaxK = 2
+  SteadyT = 6
+  SolveOK <- MC_SolveThorough
   AsFound_SubstitutesVarWithIC = FALSE
 INVARIANT TypeOK
 INVARIANT C03_SameSolution
